@@ -1085,9 +1085,28 @@ def output_value_kept(facts, rep):
     rep.note("C09.O: %d freeing write(s) found in evaluate_graph (0 would mean values are never freed: nothing to show)" % n)
 
 
+def rejected_node_is_removed(facts, rep):
+    """C09.R = C11.R: 'an operation whose arguments do not fit is rejected when the node is added' includes that the rejected
+    node leaves nothing behind - in particular no cached type that the next node with the same id would inherit"""
+    from . import C11
+    from .C06 import _Sub
+    sub = _Sub(rep, "C09")
+    sub.rule("C11.R", "a node rejected by add_node_internal (type error, size limits) is removed completely: every error exit after "
+                      "the push passes through remove_last_node, which also drops the node's cached type (shared with C11.R); a stale "
+                      "cache entry would give the next node with this id the rejected node's type")
+    flows = {}
+
+    def flow_of(name):
+        if name not in flows:
+            flows[name] = Flow(facts, facts.bodies[name])
+        return flows[name]
+    C11.rollback(facts, sub, flow_of)
+
+
 def run(facts, rep, tier):
     _run_k(facts, rep, tier)
     output_value_kept(facts, rep)
+    rejected_node_is_removed(facts, rep)
     payload_indices(facts, rep)
     self_comparisons(facts, rep)
     arity_rules(facts, rep)
